@@ -19,6 +19,7 @@ type jnode struct {
 	Kind             byte // o a s n t f z
 	KeyStart, KeyEnd int  // span of the member name (with quotes) when the value is an object member, else -1
 	Key              string
+	Parent           int // index of the enclosing node, -1 for the root
 }
 
 type jscanner struct {
@@ -49,9 +50,9 @@ func (s *jscanner) str() (start, end int) {
 	return start, s.p
 }
 
-func (s *jscanner) value(path, class string, ks, ke int, key string) {
+func (s *jscanner) value(path, class string, ks, ke int, key string, parent int) {
 	s.ws()
-	n := jnode{Start: s.p, Path: path, Class: class, KeyStart: ks, KeyEnd: ke, Key: key}
+	n := jnode{Start: s.p, Path: path, Class: class, KeyStart: ks, KeyEnd: ke, Key: key, Parent: parent}
 	idx := len(s.nodes)
 	s.nodes = append(s.nodes, n)
 	switch c := s.b[s.p]; {
@@ -68,7 +69,7 @@ func (s *jscanner) value(path, class string, ks, ke int, key string) {
 				panic("fixture JSON: ':' expected")
 			}
 			s.p++
-			s.value(path+"."+k, class+"."+k, a, e, k)
+			s.value(path+"."+k, class+"."+k, a, e, k, idx)
 			s.ws()
 			if s.b[s.p] == ',' {
 				s.p++
@@ -81,7 +82,7 @@ func (s *jscanner) value(path, class string, ks, ke int, key string) {
 		s.p++
 		s.ws()
 		for i := 0; s.b[s.p] != ']'; i++ {
-			s.value(fmt.Sprintf("%s[%d]", path, i), class+"[]", -1, -1, "")
+			s.value(fmt.Sprintf("%s[%d]", path, i), class+"[]", -1, -1, "", idx)
 			s.ws()
 			if s.b[s.p] == ',' {
 				s.p++
@@ -116,7 +117,7 @@ func (s *jscanner) value(path, class string, ks, ke int, key string) {
 
 func scanJSON(b []byte) []jnode {
 	s := &jscanner{b: b}
-	s.value("$", "$", -1, -1, "")
+	s.value("$", "$", -1, -1, "", -1)
 	return s.nodes
 }
 
@@ -189,6 +190,100 @@ func nodeMutations(doc []byte, prefix string) []mut {
 					continue
 				}
 				out = append(out, mut{Label: prefix + n.Path + "~key:" + v, Class: prefix + n.Class, Op: "casekey", Bytes: splice(doc, n.KeyStart+1, n.KeyEnd-1, v)})
+			}
+		}
+	}
+	return out
+}
+
+// member is a member to insert into objects of a path class where it is absent.
+type member struct{ Key, Value, Name string }
+
+// the legal (type, action) vocabulary of a policy's override map, hand-written
+var (
+	policyTypes   = []string{"integrity", "authenticity", "authenticTimestamp", "expiry", "revocation"}
+	policyActions = []string{"enforce", "log", "skip"}
+)
+
+// policyInsertions: optional members of a trust policy statement that node replacement cannot create.
+func policyInsertions(class string) []member {
+	var out []member
+	switch class {
+	case "$.trustPolicies[].signatureVerification":
+		for _, t := range policyTypes {
+			for _, a := range policyActions {
+				out = append(out, member{"override", `{"` + t + `":"` + a + `"}`, "override{" + t + ":" + a + "}"})
+			}
+		}
+		out = append(out, member{"override", `{}`, "override{}"}, member{"verifyTimestamp", `"always"`, "verifyTimestamp:always"}, member{"verifyTimestamp", `"afterCertExpiry"`, "verifyTimestamp:afterCertExpiry"})
+	case "$.trustPolicies[].signatureVerification.override":
+		for _, t := range policyTypes {
+			for _, a := range policyActions {
+				out = append(out, member{t, `"` + a + `"`, t + ":" + a})
+			}
+		}
+	case "$.trustPolicies[]":
+		out = append(out, member{"globalPolicy", "true", "globalPolicy:true"}, member{"trustStores", `["ca:s"]`, "trustStores"}, member{"trustedIdentities", `["*"]`, "trustedIdentities"},
+			member{"registryScopes", `["*"]`, "registryScopes:*"})
+	}
+	return out
+}
+
+// insertionMutations creates members where they are absent: (i) every member that a sibling object of
+// the same path class has (with the sibling's value), (ii) the members named by extra for the class.
+func insertionMutations(doc []byte, prefix string, extra func(class string) []member) []mut {
+	nodes := scanJSON(doc)
+	has := map[int]map[string]bool{}
+	byClass := map[string][]int{}
+	var classOrder []string
+	for i, n := range nodes {
+		if n.Kind == 'o' {
+			has[i] = map[string]bool{}
+			if _, ok := byClass[n.Class]; !ok {
+				classOrder = append(classOrder, n.Class)
+			}
+			byClass[n.Class] = append(byClass[n.Class], i)
+		}
+	}
+	type kv struct{ k, v string }
+	schema := map[string][]kv{}
+	for _, n := range nodes {
+		if n.Parent >= 0 && n.KeyStart >= 0 {
+			has[n.Parent][n.Key] = true
+			cl := nodes[n.Parent].Class
+			dup := false
+			for _, e := range schema[cl] {
+				if e.k == n.Key {
+					dup = true
+				}
+			}
+			if !dup {
+				schema[cl] = append(schema[cl], kv{n.Key, string(doc[n.Start:n.End])})
+			}
+		}
+	}
+	var out []mut
+	ins := func(i int, k, v, name, tag string) {
+		n := nodes[i]
+		text := `"` + k + `":` + v
+		if len(has[i]) > 0 {
+			text += ","
+		}
+		out = append(out, mut{Label: prefix + n.Path + "+insert(" + tag + "):" + name, Class: prefix + n.Class + "." + k, Op: "insert", Bytes: splice(doc, n.Start+1, n.Start+1, text)})
+	}
+	for _, cl := range classOrder {
+		for _, i := range byClass[cl] {
+			for _, e := range schema[cl] {
+				if !has[i][e.k] {
+					ins(i, e.k, e.v, e.k, "sibling")
+				}
+			}
+			if extra != nil {
+				for _, m := range extra(cl) {
+					if !has[i][m.Key] {
+						ins(i, m.Key, m.Value, m.Name, "optional")
+					}
+				}
 			}
 		}
 	}
